@@ -38,10 +38,21 @@ def r1_writer(ctx):
             if w is None:
                 continue
             seqs = wt.wrapped_seq(ctx, F, w)
+            # rows that write nothing before the delimiter are the same row whatever made them so (no indent / no break)
+            plain = {s3 for i3, b3, s3 in seqs if s3[:1] != ("\n",)}
+            seqs = {(i3, b3, s3) for i3, b3, s3 in seqs if s3[:1] == ("\n",)} | {(False, None, s3) for s3 in plain}
             for ind, slb, seq in seqs:
                 want = ("\n", "{indent}", "{before}", "{value}", "{after}") if (ind and slb) else ("{before}", "{value}", "{after}")
                 ctx.ob("R1", "%s[indent=%s,break=%s]" % (nm, ind, slb), seq == want, "output sequence must be %s, is %s" % (want, seq), config=cfg)
-            ctx.ob("R1", "%s:rows" % nm, len(seqs) >= 3, "indent off / on without break / on with break are distinguished: %d rows" % len(seqs), config=cfg)
+            ctx.ob("R1", "%s:rows" % nm, len(seqs) == 2, "exactly two behaviours: line break + indent before the delimiter, or the bare delimiter: %d rows" % len(seqs), config=cfg)
+        # write_indent helpers
+        wis = [("write_indent", ctx.body(F, "writer::Writer::write_indent", "R1"))]
+        if "async-tokio" in F.features:
+            for x in F.bodies_matching(r"writer::async_tokio::<impl quick_xml::writer::Writer<W>>::write_indent_async::\{closure#0\}$"):
+                wis.append(("write_indent_async", x))
+        for nm, w in wis:
+            if w is not None:
+                wt.check_write_indent(ctx, "R1", F, cfg, w, nm)
         # who writes "\n": only write_wrapped*, write_indent*
         nl = []
         for body in F.bodies:
